@@ -95,3 +95,204 @@ func H_C01_scalars() {
 	}
 	rtZScalars(v)
 }
+
+func vInner(tag string) *ZInner { return &ZInner{N: vInt32(tag + "n"), S: vText(tag+"s", 1)} }
+
+// H_C01_nested: struct by value, pointer to struct (nil / non-nil), all leaves symbolic.
+func H_C01_nested() {
+	v := &ZOuter{A: vInt32("a"), Z: vInt64("z")}
+	v.In = *vInner("in")
+	if vChoice("p", 2) == 1 {
+		v.P = vInner("p")
+	}
+	typMap, nameMap := ExtractTypeNameMap(v)
+	bs, err := ToBytes(v, nameMap)
+	vAssert("encode-noerr", err == nil)
+	out, err := ToObject(bs, typMap)
+	vAssert("decode-noerr", err == nil)
+	got, ok := out.(*ZOuter)
+	vAssert("type", ok)
+	vAssert("equal", eqZOuter(v, got))
+}
+
+// H_C01_embed: embedded struct.
+func H_C01_embed() {
+	v := &ZEmbed{X: vInt32("x")}
+	v.ZInner = *vInner("e")
+	typMap, nameMap := ExtractTypeNameMap(v)
+	bs, err := ToBytes(v, nameMap)
+	vAssert("encode-noerr", err == nil)
+	out, err := ToObject(bs, typMap)
+	vAssert("decode-noerr", err == nil)
+	got, ok := out.(*ZEmbed)
+	vAssert("type", ok)
+	vAssert("equal", vAnd(got.X == v.X, eqZInner(&got.ZInner, &v.ZInner)))
+}
+
+var zListLensQuick = []int{0, 1, 2, 3, 7, 8, 9, 15, 16, 17, 31, 32, 255, 256, 257, 263, 264}
+
+func zListLen() int {
+	if vTier() == 1 {
+		return vChoice("len", 601)
+	}
+	return zListLensQuick[vChoice("len", len(zListLensQuick))]
+}
+
+// H_C01_lists: typed lists of every element kind at every length form; one element (at a solver-chosen
+// position among first / middle / last) takes every value, the rest is concrete filler.
+func H_C01_lists() {
+	n := zListLen()
+	which := vChoice("list", 5)
+	v := &ZLists{}
+	pos := 0
+	if n > 0 {
+		pos = []int{0, n / 2, n - 1}[vChoice("pos", 3)]
+	}
+	switch which {
+	case 0:
+		v.Ss = make([]string, n)
+		for i := range v.Ss {
+			v.Ss[i] = "s"
+		}
+		if n > 0 {
+			v.Ss[pos] = vText("s", 1)
+		}
+	case 1:
+		v.Is = make([]int32, n)
+		for i := range v.Is {
+			v.Is[i] = int32(i)
+		}
+		if n > 0 {
+			v.Is[pos] = vInt32("i")
+		}
+	case 2:
+		v.Ls = make([]int64, n)
+		for i := range v.Ls {
+			v.Ls[i] = int64(i) << 20
+		}
+		if n > 0 {
+			v.Ls[pos] = vInt64("l")
+		}
+	case 3:
+		v.Fs = make([]float64, n)
+		for i := range v.Fs {
+			v.Fs[i] = float64(i) + 0.5
+		}
+		if n > 0 {
+			v.Fs[pos] = vFloat64("f")
+		}
+	case 4:
+		v.Ps = make([]*ZInner, n)
+		for i := range v.Ps {
+			v.Ps[i] = &ZInner{N: int32(i), S: "p"}
+		}
+		if n > 0 {
+			v.Ps[pos] = vInner("p")
+		}
+	}
+	typMap, nameMap := ExtractTypeNameMap(v)
+	bs, err := ToBytes(v, nameMap)
+	vAssert("encode-noerr", err == nil)
+	out, err := ToObject(bs, typMap)
+	vAssert("decode-noerr", err == nil)
+	got, ok := out.(*ZLists)
+	vAssert("type", ok)
+	vAssert("equal", eqZLists(v, got))
+}
+
+// H_C01_maps: maps with 0..2 entries, symbolic keys and values.
+func H_C01_maps() {
+	v := &ZMaps{}
+	n := vChoice("n", 3)
+	if vChoice("which", 2) == 0 {
+		v.M1 = map[string]int32{}
+		for i := 0; i < n; i++ {
+			v.M1[vText("k", 1)] = vInt32("v")
+		}
+		vAssume(len(v.M1) == n)
+	} else {
+		v.M2 = map[int32]string{}
+		for i := 0; i < n; i++ {
+			v.M2[vInt32("k")] = vText("v", 1)
+		}
+		vAssume(len(v.M2) == n)
+	}
+	typMap, nameMap := ExtractTypeNameMap(v)
+	bs, err := ToBytes(v, nameMap)
+	vAssert("encode-noerr", err == nil)
+	out, err := ToObject(bs, typMap)
+	vAssert("decode-noerr", err == nil)
+	got, ok := out.(*ZMaps)
+	vAssert("type", ok)
+	vAssert("equal", vAnd(eqMapSI(v.M1, got.M1), eqMapIS(v.M2, got.M2)))
+}
+
+// H_C01_toplevel: top-level scalars come back in their canonical wire type.
+func H_C01_toplevel() {
+	switch vChoice("kind", 9) {
+	case 0:
+		x := vInt32("x")
+		bs, err := ToBytes(x, nil)
+		vAssert("enc", err == nil)
+		out, err := ToObject(bs, nil)
+		got, ok := out.(int32)
+		vAssert("int32", err == nil && ok && got == x)
+	case 1:
+		x := vInt64("x")
+		bs, err := ToBytes(x, nil)
+		vAssert("enc", err == nil)
+		out, err := ToObject(bs, nil)
+		got, ok := out.(int64)
+		vAssert("int64", err == nil && ok && got == x)
+	case 2:
+		x := vFloat64("x")
+		bs, err := ToBytes(x, nil)
+		vAssert("enc", err == nil)
+		out, err := ToObject(bs, nil)
+		got, ok := out.(float64)
+		vAssert("float64", err == nil && ok && eqF64(got, x))
+	case 3:
+		x := vText("x", 2)
+		bs, err := ToBytes(x, nil)
+		vAssert("enc", err == nil)
+		out, err := ToObject(bs, nil)
+		got, ok := out.(string)
+		vAssert("string", err == nil && ok && got == x)
+	case 4:
+		x := vBool("x")
+		bs, err := ToBytes(x, nil)
+		vAssert("enc", err == nil)
+		out, err := ToObject(bs, nil)
+		got, ok := out.(bool)
+		vAssert("bool", err == nil && ok && got == x)
+	case 5:
+		x := vBytes("x", 3)
+		bs, err := ToBytes(x, nil)
+		vAssert("enc", err == nil)
+		out, err := ToObject(bs, nil)
+		got, ok := out.([]byte)
+		vAssert("bytes", err == nil && ok && eqBytes(got, x))
+	case 6:
+		x := vMsInstant()
+		vAssume(!x.IsZero())
+		bs, err := ToBytes(x, nil)
+		vAssert("enc", err == nil)
+		out, err := ToObject(bs, nil)
+		got, ok := out.(time.Time)
+		vAssert("time", err == nil && ok && eqInstant(got, x))
+	case 7:
+		x := vInt16("x")
+		bs, err := ToBytes(x, nil)
+		vAssert("enc", err == nil)
+		out, err := ToObject(bs, nil)
+		got, ok := out.(int32)
+		vAssert("int16-as-int32", err == nil && ok && got == int32(x))
+	case 8:
+		x := vUint32("x")
+		bs, err := ToBytes(x, nil)
+		vAssert("enc", err == nil)
+		out, err := ToObject(bs, nil)
+		got, ok := out.(int64)
+		vAssert("uint32-as-int64", err == nil && ok && got == int64(x))
+	}
+}
